@@ -73,6 +73,13 @@ def gen_program(rng, big_ok=True):
     runs = []
     used = []
     entry = None
+    extras = {}
+
+    def add_run(hdr_, seg_, g_, addr_, vals_):
+        if runs and runs[-1][0] == hdr_ and runs[-1][1] == seg_ and runs[-1][2] == g_ and runs[-1][3] + len(runs[-1][4]) == addr_:
+            runs[-1][4].extend(vals_)
+        else:
+            runs.append([hdr_, seg_, g_, addr_, list(vals_)])
     nblocks = rng.randrange(1, 5)
     budget_bytes = 220_000
     flags = []
@@ -97,7 +104,7 @@ def gen_program(rng, big_ok=True):
         cur = None       # current open run
         nops = rng.randrange(2, 14)
         for _ in range(nops):
-            k = rng.randrange(10)
+            k = rng.randrange(13)
             can_emit = (segname == 'code') or ((cpu, segname) in DATA_IN_SEG)
             if k <= 5 and can_emit:
                 # data run of a chosen byte length
@@ -178,6 +185,56 @@ def gen_program(rng, big_ok=True):
                         lines.append('\torg\t%d' % addr)
                     # else: no ORG - every segment keeps its own counter, CODE continues where it was left
                 cur = None
+            elif k == 10 and can_emit and gran == 1 and not wide and cpu != '56000':
+                # BINCLUDE: the bytes of a file (or of the part selected by offset and length), stored from the current address on
+                if big_ok and rng.random() < 0.15 and budget_bytes > 140_000:
+                    flen = rng.choice(BIG[:5]) + rng.choice([0, 0, 4464, 5000])
+                else:
+                    flen = rng.choice(LENGTHS + [100, 3000])
+                fname = 'inc%d.bin' % len(extras)
+                blob = bytes(rng.randrange(256) for _ in range(min(flen, 997))) * (flen // min(flen, 997) + 1)
+                blob = blob[:flen]
+                form = rng.randrange(3)
+                off = rng.choice([0, 1, 255, 256, 257, flen // 2]) if form else 0
+                off = min(off, flen - 1)
+                ln = rng.choice([1, 256, 257, flen - off]) if form == 2 else flen - off
+                ln = max(1, min(ln, flen - off))
+                if addr + ln > limit or ln > budget_bytes:
+                    continue
+                budget_bytes -= ln
+                extras[fname] = blob
+                lines.append('\tbinclude\t"%s"%s' % (fname, '' if form == 0 else (',%d' % off) if form == 1 else ',%d,%d' % (off, ln)))
+                add_run(hdr, seg, 1, addr, list(blob[off:off + ln]))
+                addr += ln
+            elif k == 11 and segname == 'code' and not wide and gran_of(cpu, 'code') == gran:
+                # SAVE / CPU <other> / ... / RESTORE: the processor comes back, the program counter is not part of what is saved:
+                # what follows goes on at the current address, as data of the restored processor
+                other = rng.choice([c for c in sorted(TARGETS) if c != cpu and c not in WIDE and c != '56000'])
+                ohdr, ogran, odstat, omaxv, obits, obe, orstat, olimit = TARGETS[other]
+                a2 = rng.choice([0x100, 0x300, 0x200 + rng.randrange(64)])
+                cnt = rng.randrange(1, min(omaxv, 8) + 1)
+                if a2 + cnt + 16 >= min(limit, olimit):
+                    continue
+                vs = [rng.randrange(1 << obits) for _ in range(cnt)]
+                lines += ['\tsave', '\tcpu\t%s' % other, '\torg\t%d' % a2, '\t%s\t%s' % (odstat, ','.join(str(v) for v in vs)), '\trestore']
+                add_run(ohdr, 1, ogran, a2, vs)
+                used.append(other)
+                addr = a2 + cnt
+                cnt = rng.randrange(1, min(maxv, 8) + 1)
+                vs = [rng.randrange(1 << bits) for _ in range(cnt)]
+                lines.append('\t%s\t%s' % (dstat, ','.join(str(v) for v in vs)))
+                add_run(hdr, seg, gran, addr, vs)
+                addr += cnt
+            elif k == 12 and cpu == '68000' and segname == 'code' and addr + 8 < limit:
+                # an odd number of bytes, then 'DS.W 0' (documented: align to the next even address), then data again
+                nb = rng.choice([1, 3, 5])
+                vs = [rng.randrange(256) for _ in range(nb)]
+                lines.append('\tdc.b\t%s' % ','.join(str(v) for v in vs))
+                add_run(hdr, seg, 1, addr, vs)
+                addr += nb
+                al = rng.choice([('ds.w', 2), ('ds.l', 4), ('ds.w', 2)])
+                lines.append('\t%s\t0' % al[0])
+                addr = (addr + al[1] - 1) & ~(al[1] - 1)
             else:
                 pass
     if rng.random() < 0.5:
@@ -193,7 +250,7 @@ def gen_program(rng, big_ok=True):
                                      '\tcpu\t6502', 'lab_after_end:']))
     src = '\n'.join(lines) + '\n'
     exp = [(r[0], r[1], r[2], r[3], r[4]) for r in runs if r[4]]
-    return src, exp, entry, used, flags
+    return src, exp, entry, used, flags, extras
 
 
 def gran_of(cpu, segname):
@@ -349,8 +406,13 @@ def run_case(case, ctx):
         out.sig = ('corpus', tag)
         return
     rng = ctx.rng
-    src, exp, entry, used, gflags = gen_program(rng)
+    src, exp, entry, used, gflags, extras = gen_program(rng)
     ctx.write('g.asm', src)
+    for fn, blob in extras.items():
+        ctx.write(fn, blob)
+    out.obs['binclude_files'] += len(extras)
+    out.obs['save_restore_brackets'] += src.count('\trestore')
+    out.obs['align_by_ds0'] += src.count('\t0\n')
     a = asl.assemble(ctx, 'g.asm', gflags, trace=True, timeout=120)
     tag = 'generated #%d' % ctx.idx
     out.sample = {'generated': ctx.idx, 'targets': used, 'flags': gflags, 'expected_runs': [(h, s, g, st, len(v)) for h, s, g, st, v in exp][:8],
